@@ -244,7 +244,7 @@ pub fn run(args: &Args) -> ! {
     let front = crate::front::render_sweep(&snippets, quick);
     rd.merge(front);
 
-    if lc.outcomes.len() < 20 || rd.positions.len() < 20 {
+    if lc.failures.total() + rd.failures.total() == 0 && (lc.outcomes.len() < 20 || rd.positions.len() < 20) {
         machinery_failure("vacuous run");
     }
 
